@@ -395,6 +395,16 @@ def slice_count_uncapped(ctx):
     makes the curves of a long arc wider than the error asked for."""
     for q in ("Path.approximate_arcs_with_cubics", "Path.approximate_arcs_with_quads"):
         fn = ctx.fn(q, "R19.3")
-        caps = [c for c in ast.walk(fn) if isinstance(c, ast.Call) and call_name(c) == "min"]
+        # the count: what is handed to as_cubic_curves / as_quad_curves
+        counts = {a.id for c in ast.walk(fn) if isinstance(c, ast.Call) and isinstance(c.func, ast.Attribute) and c.func.attr in ("as_cubic_curves", "as_quad_curves")
+                  for a in list(c.args) + [k.value for k in c.keywords] if isinstance(a, ast.Name)}
+        ctx.need(counts, "R19.3", "%s: slice count handed to the converter not found" % q)
+        caps = []
+        for c in ast.walk(fn):
+            if isinstance(c, ast.Call) and call_name(c) == "min":
+                par = getattr(c, "_parent", None)
+                to_count = isinstance(par, ast.Assign) and any(isinstance(t, ast.Name) and t.id in counts for t in par.targets)
+                if to_count or any(isinstance(x, ast.Name) and x.id in counts for a in c.args for x in ast.walk(a)):
+                    caps.append(c)
         ctx.ob("R19.3", "%s[slice count grows with the sweep]" % q, not caps, "; ".join(ast.unparse(c)[:50] for c in caps), fn.lineno,
                "a 2.5-turn arc at error 0.1 needs 25 curves; capped at one turn's worth it gets 10 and leaves the ellipse by 2 % of the radius")
